@@ -12,6 +12,8 @@ from harness import det_models as DM
 from harness import atoms as AT
 
 THEOREMS = {
+    'RsomeV.Props.C16Show': ['RsomeV.C16Show.show_roundtrip', 'RsomeV.C16Show.show_roundtrip_lin', 'RsomeV.C16Show.show_injective', 'RsomeV.C16Show.show_determines',
+                              'RsomeV.C16Show.show_determines_cones', 'RsomeV.C16Show.tail_order_lost'],
     'RsomeV.Props.C16': ['RsomeV.C16.lp_roundtrip', 'RsomeV.C16.lp_roundtrip_text', 'RsomeV.C16.split_render', 'RsomeV.C16.render_injective',
                          'RsomeV.C16.toParsed_determines', 'RsomeV.C16.text_determines', 'RsomeV.C16.lp_roundtrip_rows', 'RsomeV.C16.lp_roundtrip_bounds',
                          'RsomeV.C16.lp_roundtrip_types', 'RsomeV.C16.lp_roundtrip_cones'],
@@ -104,6 +106,7 @@ def check_formula(ctx, f, case, tag):
 
 def run(ctx):
     C.run_difftest(ctx, 'test_export.py', ctx.n(150, 3000), 'LinProg/SOCProg.lp_export text')
+    C.run_difftest(ctx, 'test_show.py', ctx.n(80, 1500), 'show() tables of LinProg / SOCProg / GCProg, cell by cell')
     for k in range(ctx.n(50, 900)):
         seed = int(ctx.rng.integers(2 ** 31))
         r = np.random.default_rng(seed)
